@@ -43,6 +43,9 @@ BATCH = {           # name -> (batch of A, batch of M)
     "|2": ((), (2,)),
     "21|13": ((2, 1), (1, 3)),
     "1|2": ((1,), (2,)),
+    # batch shapes of different rank whose sizes would clash if compared from the left
+    "21|3": ((2, 1), (3,)),
+    "3|21": ((3,), (2, 1)),
 }
 METHODS = [None, "exacteig", "custom_exacteig", "davidson"]
 DAV_DEFAULT = {"v_init": "randn", "nguess": 0, "min_eps": 1e-9}
@@ -162,9 +165,11 @@ def cases(tier, seed):
                 for sv in ("sep", "rep"):
                     if sv == "rep" and min(mm, nn) < 2:
                         continue
-                    for b in ("-", "2", "21"):
+                    for b in ("-", "2", "21", "2mag"):
                         if b != "-" and (mm, nn) not in ((3, 3), (5, 3), (3, 5)) and not thorough:
                             continue
+                        if b == "2mag" and m == "davidson":
+                            continue    # its stopping test (min_eps) is absolute: not scale free by design
                         for k in range(1, min(mm, nn) + 1):
                             for mode in ("uppest", "lowest") + (("Uppermost",) if (mm, nn) == (3, 3) else ()):
                                 c = {"fam": "svd", "method": m, "opkind": opkind, "m": mm, "n": nn, "k": k,
@@ -394,7 +399,9 @@ def run_symeig(cfg):
 
 # ------------------------------------------------------------------ run: svd
 
-SVD_BATCH = {"-": (), "2": (2,), "21": (2, 1)}
+# 2mag: a batch of two operators of overall magnitude 1e4 and 1e-5 in one call (each judged relative to itself)
+SVD_BATCH = {"-": (), "2": (2,), "21": (2, 1), "2mag": (2,)}
+MAG = torch.tensor([1e4, 1e-5], dtype=torch.float64)
 
 
 def run_svd(cfg):
@@ -425,13 +432,15 @@ def run_svd(cfg):
     if abserr(s_ref, sv_t.expand(b + (r,))) > 1e-12:
         raise AssertionError("harness: svd construction and svdvals disagree")
 
+    magmix = cfg["batch"] == "2mag"
+    Acall = A * MAG.to(dt)[:, None, None] if magmix else A
     if cfg["sv"] == "symind":
         import xitorch as _xt
         # dense: LinearOperator.m detects the symmetry itself; hflag: flagged by the caller; mfree: mv-only flagged
         Aop = {"dense": lambda: _xt.LinearOperator.m(A), "hflag": lambda: herm_op("dense", A),
                "mfree": lambda: herm_op("mfree", A)}[cfg["opkind"]]()
     else:
-        Aop = gen_op(cfg["opkind"], A)
+        Aop = gen_op(cfg["opkind"], Acall)
     dav = cfg["method"] == "davidson"
     torch.manual_seed(20240 + n)
     o = call(svd, Aop, k=k, mode=cfg["mode"], method=cfg["method"], **_fwd_opts(cfg))
@@ -450,6 +459,8 @@ def run_svd(cfg):
         viol.append(V("dtype-mismatch", {"u": str(u.dtype), "s": str(s.dtype), "vh": str(vh.dtype)}))
         return {"viol": viol, "obs": {"s": str(s.dtype)}, "status": "violation"}
     u, s, vh = u.detach(), s.detach(), vh.detach()
+    if magmix:
+        s = s / MAG[:, None]        # every batch element is judged on its own scale
     fin = all(bool(torch.isfinite(t).all()) for t in (u, s, vh))
     if not fin:
         return {"viol": [V("non-finite-output", {})], "obs": {"finite": False}, "status": "violation"}
